@@ -30,6 +30,7 @@ EXPLANATION = ('partial: the forwarding closure, link order and relative rpath c
                'non-ELF formats are not covered')
 
 FINDING_ORDER = 'link-order-first-occurrence-dedup'
+FINDING_WHOLE_PLAIN = 'whole-archive-after-plain-archive-of-same-library'
 
 DIRS = ['', 'lib', 'lib/sub', 'a/b/c', 'bin', 'x.y', 'lib2', 'a/b', 'a/z']
 KINDS = ['static', 'shared', 'dual', 'default']
@@ -175,6 +176,11 @@ def gen_project(rng, rep=None, system=False, max_libs=7):
     return p
 
 
+def plain_before_whole(line):
+    """libraries that are on a link line as plain archive and, later, as whole-archive"""
+    return [l // 3 for l in line if l % 3 == 2 and l - 1 in line and line.index(l - 1) < line.index(l)]
+
+
 CORPUS = [
     # DESIGN 7.7: static b; c -> {b}; a -> {b, c} (a's code uses c only); exe -> {a}
     {'mode': [True, False], 'nodes': [
@@ -197,7 +203,27 @@ CORPUS = [
         {'kind': 'static', 'deps': [[0, False], [2, False], [1, False]], 'lopts': [], 'pkgs': [], 'dir': 'a/b/c', 'uses': [2], 'exe': False},
         {'kind': 'shared', 'deps': [[3, True]], 'lopts': [], 'pkgs': [], 'dir': 'lib2', 'uses': [3], 'exe': False},
         {'kind': 'shared', 'deps': [[4, False]], 'lopts': [], 'pkgs': [], 'dir': 'bin', 'uses': [4], 'exe': True}]},
+    # static a; static c -> {a}; static y -> {whole_archive(a)}; exe -> {c, y}: a is forwarded plain and whole
+    {'mode': [True, False], 'nodes': [
+        {'kind': 'static', 'deps': [], 'lopts': [], 'pkgs': [], 'dir': '', 'uses': [], 'exe': False},
+        {'kind': 'static', 'deps': [[0, False]], 'lopts': [], 'pkgs': [], 'dir': '', 'uses': [0], 'exe': False},
+        {'kind': 'static', 'deps': [[0, True]], 'lopts': [], 'pkgs': [], 'dir': '', 'uses': [0], 'exe': False},
+        {'kind': 'shared', 'deps': [[1, False], [2, False]], 'lopts': [], 'pkgs': [], 'dir': '', 'uses': [1, 2], 'exe': True}]},
 ]
+
+
+def corpus_projects():
+    """the inline corner cases plus every corpus/C14/*.json (minimised past disagreements)"""
+    res = [Project.from_json(c) for c in CORPUS]
+    seen = set(p.text() for p in res)
+    d = os.path.join(common.VERIF, 'corpus', 'C14')
+    for fn in sorted(os.listdir(d)) if os.path.isdir(d) else []:
+        if fn.endswith('.json'):
+            pj = Project.from_json(json.load(open(os.path.join(d, fn)))['project'])
+            if pj.text() not in seen:
+                seen.add(pj.text())
+                res.append(pj)
+    return res
 
 
 # ----------------------------------------------------------------------------- real objects in process
@@ -490,6 +516,8 @@ def classify(proj, fixed, kind):
     cl = []
     if kind == 'order' and fixed is False:
         cl.append(FINDING_ORDER)
+    if kind == 'whole-plain':
+        cl.append(FINDING_WHOLE_PLAIN)
     return tuple(cl)
 
 
@@ -517,6 +545,13 @@ def oracle_project(rep, proj, fixed):
                      {'project': proj.to_json(), 'node': n, 'kind': 'closure', 'line': line},
                      classes=classify(proj, fixed, 'closure'))
             continue
+        for j in plain_before_whole(line):
+            if any(j in nd.uses for nd in proj.nodes):
+                bad += 1
+                rep.fail('link of n%d: library n%d is on the line as plain archive and later as whole-archive %r: '
+                         'multiple definition' % (n, j, line),
+                         {'project': proj.to_json(), 'node': n, 'kind': 'whole-plain', 'line': line},
+                         classes=classify(proj, fixed, 'whole-plain'))
         for x in line:
             for y in proj.edges(x):
                 if line.index(y) < line.index(x):
@@ -595,8 +630,6 @@ def write_project(proj, src):
         if n.exe:
             lines.append('n%d = executable(%s)' % (i, args))
         else:
-            # objects of a static library may end up in a shared library
-            args += ", compile_options=['-fPIC']"
             fn = {'static': 'static_library', 'shared': 'shared_library', 'dual': 'library', 'default': 'library'}[n.kind]
             if n.kind == 'dual':
                 args += ", kind='dual'"
@@ -707,10 +740,12 @@ def system_project(rep, proj, fixed, keep=False):
         rep.traces += 1
         # one direction only: a real shared library also exports the symbols of the archives linked into it, so
         # the real linker may succeed where the model (one symbol per library) predicts a failure
-        if rc != 0 and predicted_ok:
+        if rc != 0 and predicted_ok and not any(plain_before_whole(l) for l in lines.values()):
             dis.append(('ld', 'make rc %d but the ld model predicts %r' % (rc, verdicts), err[-600:], None))
         if rc != 0:
             kind = 'order' if (not predicted_ok or 'undefined reference' in err) else 'build'
+            if 'multiple definition' in err and any(plain_before_whole(l) for l in lines.values()):
+                kind = 'whole-plain'
             rep.fail('the generated project does not build: %s' % err[-500:],
                      {'project': proj.to_json(), 'kind': kind, 'stderr': err[-3000:], 'link_lines': lines},
                      classes=classify(proj, fixed, kind))
@@ -746,7 +781,7 @@ def system_project(rep, proj, fixed, keep=False):
 
 
 def stage_system(rep, rng, fixed, count):
-    projs = [Project.from_json(c) for c in CORPUS[:count]]
+    projs = [p for p in corpus_projects() if all(not n.pkgs and all(t == 0 for t, _ in n.lopts) for n in p.nodes)][:count]
     while len(projs) < count:
         projs.append(gen_project(rng, None, system=True, max_libs=6))
     bad, dis = 0, []
@@ -855,8 +890,20 @@ def stage_r_ld(rep, rng, count):
 
 
 # ----------------------------------------------------------------------------- driver
+def load_own_findings(rep):
+    """known_findings.json is merged from findings.d/ by the coordinator; until then (and afterwards,
+    idempotently) take the open entries of findings.d/C14.json as well."""
+    try:
+        own = json.load(open(os.path.join(common.VERIF, 'findings.d', 'C14.json')))
+    except (OSError, ValueError):
+        return
+    have = set(k['id'] for k in rep.known)
+    rep.known.extend(k for k in own if k.get('status') == 'open' and k.get('property') == 'C14' and k['id'] not in have)
+
+
 def run_check(rep, thorough):
     rng = random.Random(rep.seed)
+    load_own_findings(rep)
     rep.proof_stage(coqchk=thorough)
     fixed, probe = detect_fixed()
     rep.stage('variant', probe_line=probe, fixed=fixed)
@@ -864,8 +911,8 @@ def run_check(rep, thorough):
         rep.fail('the 7.7 witness project gives the unexpected link line %r' % (probe,),
                  {'project': CORPUS[0], 'kind': 'order', 'line': probe}, classes=())
         fixed = True
-    nproj = 400 if thorough else 60
-    projects = [Project.from_json(c) for c in CORPUS] + [gen_project(rng, rep) for _ in range(nproj)]
+    nproj = 1000 if thorough else 60
+    projects = corpus_projects() + [gen_project(rng, rep) for _ in range(nproj)]
     dis = stage_w_links(rep, rng, fixed, projects)
     dis2 = stage_w_rpath(rep, rng, 600 if thorough else 120)
     stage_r_ld(rep, rng, 400 if thorough else 70)
@@ -879,7 +926,7 @@ def run_check(rep, thorough):
         rep.case('o:' + p.text(), True)
         found += oracle_project(rep, p, fixed)
     rep.stage('oracle:property-on-real-objects', projects=len(oprojects), failures=found)
-    sbad, sdis = stage_system(rep, rng, fixed, (40 if thorough else 4) * (2 if (dis or dis2) else 1))
+    sbad, sdis = stage_system(rep, rng, fixed, (120 if thorough else 11) * (2 if (dis or dis2) else 1))
     found += sbad
     if sdis and not sbad:
         p, x = sdis[0]
@@ -906,6 +953,7 @@ def replay(rep, path):
     if 'project' not in r:
         return run(rep)
     proj = Project.from_json(r['project'])
+    load_own_findings(rep)
     fixed, _ = detect_fixed()
     fixed = True if fixed is None else fixed
     n = oracle_project(rep, proj, fixed)
